@@ -29,6 +29,7 @@ pub struct Profile {
     /// Probability of the "sub-query used twice" shape: a CTE aggregation released once as is and
     /// re-aggregated once, combined by UNION ALL.
     pub p_shared_cte: f64,
+    pub p_alias_shadow: f64,
     /// Probability of an aggregation over an aggregation grouped by the inner aggregate
     /// (`SELECT t.c, count(*) FROM (SELECT count(*) AS c FROM base GROUP BY key) AS t GROUP BY t.c`).
     pub p_nested_group: f64,
@@ -53,13 +54,14 @@ impl Profile {
             full_catalogue: false,
             p_nested: 0.08,
             p_shared_cte: 0.0,
+            p_alias_shadow: 0.0,
             p_nested_group: 0.0,
             p_multi_dp: 0.0,
         };
         match prop {
             "C03" => Profile { p_multi_dp: 0.06, p_shared_cte: 0.05, p_nested_group: 0.03, ..base },
             "C01" => Profile { p_shared_cte: 0.03, p_nested_group: 0.05, ..base },
-            "C09" => Profile { public_keys_only: true, benign_data: true, p_distinct: 0.12, p_row_privacy: 0.15, p_grouped: 0.65, ..base },
+            "C09" => Profile { p_alias_shadow: 0.4, public_keys_only: true, benign_data: true, p_distinct: 0.12, p_row_privacy: 0.15, p_grouped: 0.65, ..base },
             "C04" => Profile { p_nested_group: 0.08, p_nested: 0.0, need_private_key: true, p_grouped: 1.0, p_outer: 0.0, p_distinct: 0.05, ..base },
             "C16" => Profile { benign_data: true, full_catalogue: true, p_public_table: 1.0, p_synthetic: 0.3, ..base },
             "C02" => Profile { p_multi_dp: 0.04, p_nested_group: 0.03, p_shared_cte: 0.08, p_plain: 0.25, p_synthetic: 0.4, p_public_table: 0.5, p_outer: 0.2, ..base },
@@ -316,7 +318,7 @@ pub fn generate(seed: u64, run: u64, prop: &str) -> Generated {
 
     // ---------------- parameters ----------------
     let mut rq = Rng::stream(seed, run, "params");
-    let params = Params {
+    let mut params = Params {
         epsilon: if rq.chance(0.2) { *rq.pick(&[0.05, 0.5, 1.0, 10.0]) } else { rq.log_uniform(0.05, 10.0) },
         delta: rq.log_uniform(1e-9, 1e-2),
         tau_share: if rq.chance(0.2) { 0.5 } else { rq.uniform(0.05, 0.95) },
@@ -326,6 +328,13 @@ pub fn generate(seed: u64, run: u64, prop: &str) -> Generated {
         // "as many groups as Cu, plus one" is where off-by-one reasoning about the cap goes wrong
         cu: if rq.chance(0.2) { *rq.pick(&[2u64, 5, 7]) } else { 1 + rq.below(8) },
     };
+    // extreme splits of the budget between thresholding and aggregates (own stream: the other
+    // parameters of a run do not move): floors, caps and "at least this much" guards live there
+    let mut rx = Rng::stream(seed, run, "params_extreme");
+    if rx.chance(0.12) {
+        params.tau_share = *rx.pick(&[0.001, 0.01, 0.02, 0.04, 0.049, 0.96, 0.99, 0.999]);
+        tags.push("extreme_tau_share".into());
+    }
 
     // ---------------- instance ----------------
     let mut rd = Rng::stream(seed, run, "data");
@@ -666,7 +675,7 @@ pub fn generate(seed: u64, run: u64, prop: &str) -> Generated {
             let query = QuerySpec {
                 from: vec![FromItem { table: base_name.clone(), alias: a.clone(), on: None, kind: String::new() }],
                 where_: vec![],
-                keys: vec![KeySpec { expr: "t.c".into(), alias: "k0".into(), public_set: None, nullable: false, ambiguous: false }],
+                keys: vec![KeySpec { expr: "t.c".into(), alias: "k0".into(), public_set: None, nullable: false, ambiguous: false, group_expr: None }],
                 aggs: vec![AggSpec { f: AggFn::CountStar, distinct: false, arg: String::new(), alias: "a0".into(), scale: 1.0 }],
                 having: None,
                 outer: None,
@@ -792,23 +801,23 @@ pub fn generate(seed: u64, run: u64, prop: &str) -> Generated {
                     // threshold in the middle of the declared range, or exactly on one of its bounds
                     let mid = match rg.weighted(&[6, 2, 2]) { 0 => lo + (hi - lo) / 2.0, 1 => lo, _ => hi };
                     let expr = format!("CASE WHEN {} {} {:?} THEN 'hi' ELSE 'lo' END", q, rg.pick(&[">", ">", "<", ">=", "<="]), mid);
-                    keys.push(KeySpec { expr, alias: format!("k{}", keys.len()), public_set: Some(vec![Cell::Text("hi".into()), Cell::Text("lo".into())]), nullable: false, ambiguous: true });
+                    keys.push(KeySpec { expr, alias: format!("k{}", keys.len()), public_set: Some(vec![Cell::Text("hi".into()), Cell::Text("lo".into())]), nullable: false, ambiguous: true, group_expr: None });
                 }
                 continue;
             }
-            keys.push(KeySpec { expr: q.clone(), alias: format!("k{}", keys.len()), public_set: public, nullable: c.optional, ambiguous });
+            keys.push(KeySpec { expr: q.clone(), alias: format!("k{}", keys.len()), public_set: public, nullable: c.optional, ambiguous, group_expr: None });
         }
         // sometimes a single private key over a small, non-nullable integer range
         if profile.need_private_key && rg.chance(0.25) {
             if let Some((q, _)) = keyable.iter().find(|(q, c)| matches!(c.ty, ColType::IntRange { lo, hi } if hi - lo <= 8 && hi > lo) && !c.optional && !where_.iter().any(|w| w.contains(q.as_str()))) {
                 keys.clear();
-                keys.push(KeySpec { expr: q.clone(), alias: "k0".into(), public_set: None, nullable: false, ambiguous: false });
+                keys.push(KeySpec { expr: q.clone(), alias: "k0".into(), public_set: None, nullable: false, ambiguous: false, group_expr: None });
             }
         }
         if profile.need_private_key && !keys.iter().any(|k| k.public_set.is_none()) {
             if let Some((q, _)) = keyable.iter().find(|(q, c)| public_set_of(&c.ty).is_none() && !in_list_cols.iter().any(|(qq, _)| qq == q)) {
                 if keys.len() >= 2 { keys.pop(); }
-                keys.push(KeySpec { expr: q.clone(), alias: format!("k{}", keys.len()), public_set: None, nullable: false, ambiguous: false });
+                keys.push(KeySpec { expr: q.clone(), alias: format!("k{}", keys.len()), public_set: None, nullable: false, ambiguous: false, group_expr: None });
             }
         }
     }
@@ -927,7 +936,44 @@ pub fn generate(seed: u64, run: u64, prop: &str) -> Generated {
             tags.push("nested".into());
         }
     }
-    let query = QuerySpec { from, where_, keys, aggs, having, outer: if cte.is_some() { None } else { outer }, plain: None, cte, raw_sql: None, holders_override: None };
+    let mut query = QuerySpec { from, where_, keys, aggs, having, outer: if cte.is_some() { None } else { outer }, plain: None, cte, raw_sql: None, holders_override: None };
+    // a SELECT alias that shadows the input column GROUP BY names (own stream): SQL groups on the
+    // input column, so `SELECT f(c) AS c ... GROUP BY c` with a non-injective f has repeated keys
+    let mut rs_ = Rng::stream(seed, run, "alias_shadow");
+    if rs_.chance(profile.p_alias_shadow)
+        && query.from.len() == 1
+        && query.cte.is_none()
+        && query.keys.len() == 1
+        && query.having.is_none()
+        && !query.keys[0].ambiguous
+        && !query.keys[0].nullable
+        && !query.aggs.iter().any(|a| a.distinct || matches!(a.f, AggFn::Var | AggFn::Std))
+    {
+        let k = &mut query.keys[0];
+        if let (Some(set), Some(col)) = (k.public_set.clone(), k.expr.split_once('.').map(|x| x.1.to_string())) {
+            let lit = |c: &Cell| -> Option<String> {
+                match c {
+                    Cell::Text(t) => Some(format!("'{}'", t)),
+                    Cell::Int(i) => Some(format!("{}", i)),
+                    _ => None,
+                }
+            };
+            if set.len() >= 2 && col.chars().all(|c| c.is_ascii_alphanumeric() || c == '_') {
+                let i = rs_.usize(set.len());
+                let j = (i + 1 + rs_.usize(set.len() - 1)) % set.len();
+                if let (Some(a), Some(b)) = (lit(&set[i]), lit(&set[j])) {
+                    let qualified = k.expr.clone();
+                    k.group_expr = Some(col.clone());
+                    k.alias = col.clone();
+                    k.expr = format!("CASE WHEN {} = {} THEN {} ELSE {} END", qualified, a, b, qualified);
+                    if let Some(o) = query.outer.as_mut() {
+                        o[0] = (col.to_string(), col.to_string());
+                    }
+                    tags.push("alias_shadow".into());
+                }
+            }
+        }
+    }
     finish(seed, run, tables, synthetic, pu, params, query, base, tags, faults, &protected)
 }
 
